@@ -9,19 +9,19 @@ ALL = [f"C{i:02d}" for i in range(1, 21)]
 # property -> (technique, level text, level note, design ref)
 CLAIMED = {
     "C01": (
-        "Hypothesis-generated worlds simulated end-to-end with a shadow resource ledger fed by class-level wrappers on Worker.place_task/remove_task/load_profile/evict_profile",
+        "Hypothesis-generated worlds (bundled greedy and MILP policies, plus a script-driven plan-ahead policy whose every placement is a generated value) simulated end-to-end with a shadow resource ledger fed by class-level wrappers on Worker.place_task/remove_task/load_profile/evict_profile",
         "Every ledger operation on a live worker in thousands of generated runs is replayed on an independent shadow ledger (demand taken from the execution strategy, a batch counted once) and compared with the configured capacity; TASK_PLACEMENT and WORKER_POOL_UTILIZATION rows are cross-checked. Exploration of the run space, not proof.",
         "Scheduler runtime 0, no preemption; solver-backed policies are bounded by the size-limited Gurobi/CPLEX licences.",
         "DESIGN.md 3 C01",
     ),
     "C02": (
-        "Hypothesis-generated DAG worlds simulated end-to-end; every Task.start judged against the monitor's own release/finish history and the CSV trace",
+        "Hypothesis-generated DAG worlds simulated end-to-end under bundled policies and under generated plans (script-driven plan-ahead policy placing unreleased tasks, retracting and re-planning); every Task.start judged against the monitor's own release/finish history and the CSV trace",
         "Validity predicate over every start of every task of every generated run: release first, all (terminal: one) predecessors finished first, at most one start/finish. Exploration.",
         "Predecessor sets come from the generated spec. Scheduler runtime 0, no preemption.",
         "DESIGN.md 3 C02",
     ),
     "C03": (
-        "Hypothesis-generated worlds with simultaneous events; per-task duration, release of resources, clock monotonicity and justification of every deferral against shadow models",
+        "Hypothesis-generated worlds with simultaneous events (bundled policies and generated plans); per-task duration, release of resources, clock monotonicity and justification of every deferral against shadow models",
         "Every task's finish-start is compared with the runtime of the strategy handed to Worker.place_task (exact, or within the variance window), resources must be released at that instant, handled event times must be non-decreasing, and each TASK_NOT_READY/WORKER_NOT_READY must be justified by the shadow history/ledger. Exploration.",
         "Tie order among equal-priority events is not asserted. Scheduler runtime 0, no preemption.",
         "DESIGN.md 3 C03",
@@ -33,13 +33,13 @@ CLAIMED = {
         "DESIGN.md 3 C04",
     ),
     "C05": (
-        "Hypothesis-generated worlds; deterministic livelock detection in the harness (no wall-clock oracle) plus end-state predicates for feasible work under work-conserving policies",
+        "Hypothesis-generated worlds (bundled policies; generated plans for the termination clause only); deterministic livelock detection in the harness (no wall-clock oracle) plus end-state predicates for feasible work under work-conserving policies",
         "simulate() must return with a SIMULATOR_END no later than the timeout; non-termination is proven from the deterministic loop (repeated zero-length steps or scheduler invocations with no state change), never guessed from time. Feasible work under EDF/FIFO/LSF must be complete and no runnable released task may remain when the run ends early. Exploration; liveness only up to the step budget.",
         "Runs that hit the 4000-step budget without a proven loop are inconclusive (counted). Scheduler runtime 0.",
         "DESIGN.md 3 C05",
     ),
     "C06": (
-        "Hypothesis-generated cancel-heavy worlds; every successful Task transition checked against a reference lifecycle automaton and the final cancelled set checked for downstream closure",
+        "Hypothesis-generated cancel-heavy worlds (bundled policies and generated plans with retraction) plus a model-based operation list on a single Task (release/schedule/unschedule/start/run/cancel against a reference automaton of the documented guards); the final cancelled set is checked for downstream closure",
         "Reference automaton over all observed Task.release/schedule/unschedule/start/finish/cancel calls plus an end-of-run closure predicate (a descendant that can no longer receive its inputs is CANCELLED, never started, has one TASK_CANCEL row; TASK_GRAPH_FINISHED iff all sinks completed). Exploration.",
         "Graph structure comes from the generated spec; scheduler runtime 0; no preemption.",
         "DESIGN.md 3 C06",
@@ -51,7 +51,7 @@ CLAIMED = {
         "DESIGN.md 3 C07",
     ),
     "C08": (
-        "Hypothesis-generated worlds; differential check of every CSV row and of the end-of-run summary against ground truth from Task objects, monitors and shadow ledger, then round-trip through data.CSVReader",
+        "Hypothesis-generated worlds (bundled greedy policies and a generated retracting plan-ahead policy); differential check of every CSV row and of the end-of-run summary against ground truth from Task objects, monitors and shadow ledger, then round-trip through data.CSVReader",
         "Each trace row is recomputed from independent observations and the whole trace is parsed by the project's reader whose reconstruction is compared field by field (differential / round-trip oracle). Exploration.",
         "Crashing/livelocking runs are judged by C05. Scheduler runtime 0; no preemption.",
         "DESIGN.md 3 C08",
@@ -81,7 +81,7 @@ CLAIMED = {
         "DESIGN.md 3 C12",
     ),
     "C13": (
-        "Hypothesis-generated scheduler inputs (reachable states on single-worker pools) with an independent tie-tolerant fit check per unplaced task",
+        "Hypothesis-generated scheduler inputs (reachable states on single-worker pools, non-preemptive and preemptive EDF/LSF, deadlines in mixed time units) with an independent tie-tolerant fit check per unplaced task",
         "For every generated invocation of EDF/FIFO/LSF: each unplaced task must not fit any pool once higher-or-equal priority placements are accounted; placed tasks are jointly feasible. Exploration.",
         "Single-worker pools; priority keys recomputed by the harness (deadline / release / deadline-now-remaining).",
         "DESIGN.md 3 C13",
@@ -110,7 +110,7 @@ CLAIMED = {
     ),
     "C17": (
         "exhaustive enumeration of all labelled DAGs (<=5 nodes quick, 6 nodes thorough) plus Hypothesis random "
-        "DAGs/cyclic digraphs/TaskGraph+JobGraph instances against brute-force path enumeration",
+        "DAGs/cyclic digraphs/TaskGraph+JobGraph instances against brute-force path enumeration, and model-based mutation histories (add_node/add_child/remove interleaved with queries) on one Graph object",
         "Every labelled DAG up to the bound is enumerated and each graph algorithm is compared with an "
         "independent reference (transitive closure, brute-force source-sink path enumeration, own DP); "
         "exhaustive within the bound, sampled above it.",
@@ -124,7 +124,7 @@ CLAIMED = {
         "DESIGN.md 3 C18",
     ),
     "C19": (
-        "Hypothesis-generated YAML/JSON descriptions loaded by WorkloadLoader/WorkerLoader and compared field by field (round-trip), with independently recomputed release times, graph copies and deadlines; closed-loop concurrency on generated runs",
+        "Hypothesis-generated YAML/JSON descriptions loaded by WorkloadLoader/WorkerLoader and compared field by field (round-trip), with independently recomputed release times, graph copies and deadlines, closed loops driven through notify_task_graph_completion so that follow-up invocations are judged too; closed-loop concurrency on generated runs",
         "Round-trip oracle for descriptions, reference computations for release policies and deadlines, invariant over end-to-end closed-loop runs. Exploration.",
         "Critical path by own brute-force enumeration; graphs whose critical path is ambiguous (zero weights with SLOs) are skipped and counted.",
         "DESIGN.md 3 C19",
@@ -132,7 +132,7 @@ CLAIMED = {
     "C20": (
         "Hypothesis grammar of STRL trees lowered by the repository's C++ code (driver built from /repo sources with a sequential TBB shim); differential against an independent Python semantics of STRL with exhaustive leaf-decision enumeration; solution-pool enumeration of the rebuilt MILP fed back through populateResults(); metamorphic relations over pruning passes and discretisation",
         "Translation validation by generated search: for each generated tree the optimum and up to 30 feasible points of the emitted model are decoded and judged by a reference semantics (capacity at every instant, exact Choose amounts/windows, Min/Max/LessThan structure, utility == objective, read-back placements); optimum == brute-force optimum; optimum invariant under the pruning passes; coarser grids only lose utility. Exploration over trees, exhaustive over leaf decisions per tree.",
-        "Model solved with gurobipy after a translation mirroring GurobiSolver.cpp; WindowedChoose/MalleableChoose not compared with a reference optimum; trees with > 40 000 decision vectors are discarded.",
+        "Model solved with gurobipy after a translation mirroring GurobiSolver.cpp; WindowedChoose windows on their own grid (as the front-end passes them); trees with > 40 000 decision vectors are discarded.",
         "DESIGN.md 3 C20",
     ),
 }
